@@ -457,6 +457,9 @@ def write_dataset_to_text(dataset: DataSet, fh: TextIO) -> None:
         if ':' in name:
             raise ValueError("Invalid character ':' in attribute name {!r}".format(name))
 
+        if ('\n' in name) or ('\r' in name):
+            raise ValueError("Invalid line break in attribute name {!r}".format(name))
+
         attrs[name] = val
 
     # Reshape data to 2D format.
